@@ -107,6 +107,7 @@ def obsOf? (xs : List Json) : Option Obs :=
   | [.str "orphan"] => some (.lab .orphan)
   | [.str "orphanEnd"] => some (.lab .orphanEnd)
   | [.str "act", a] => (actorOf? a).map (fun a => .lab (.act a))
+  | [.str "orchAbandon"] => some (.lab .orchAbandon)
   | [.str "rtStopRoots"] => some (.lab .rtStopRoots)
   | [.str "rtCancel"] => some (.lab .rtCancel)
   | [.str "rtHungWait"] => some (.lab .rtHungWait)
@@ -180,8 +181,13 @@ def applyObs (cfg : Cfg) (s : State) : Obs → Except String State
       | none => .error "label-not-enabled"
 
 def replay (cfg : Cfg) (s : State) (i : Nat) : List Json → Option Json
-  | [] => some (ok (Json.mkObj [("accepted", .bool true), ("n", .num i), ("final", stateJson cfg s)]))
+  | [] => some (ok (Json.mkObj [("accepted", .bool true), ("n", .num i), ("truncated", .bool false), ("final", stateJson cfg s)]))
   | entry :: rest => do
+    -- the orchestrator was double-cancelled (`orchAbandon`, finding C20-F8): the model does not describe the code any further;
+    -- the comparison stops here and says so
+    if s.abandoned then
+      some (ok (Json.mkObj [("accepted", .bool true), ("n", .num i), ("truncated", .bool true), ("final", stateJson cfg s)]))
+    else
     match ← jArr? entry with
     | tj :: lab =>
       let t ← jNat? tj
@@ -204,12 +210,13 @@ def replay (cfg : Cfg) (s : State) (i : Nat) : List Json → Option Json
 def cfgOf? (j : Json) : Option Cfg := do
   let fixed ← jBool? (← jField? j "fixed")
   let cw ← jBool? (← jField? j "coreWatched")
+  let sh ← jBool? (← jField? j "orchShielded")
   let e ← jNat? (← jField? j "E")
   let w ← jNat? (← jField? j "W")
   let d ← jNat? (← jField? j "D")
   let c ← jNat? (← jField? j "C")
   let h ← jNat? (← jField? j "H")
-  pure { fixed := fixed, coreWatched := cw, E := e, W := w, D := d, C := c, H := h }
+  pure { fixed := fixed, coreWatched := cw, orchShielded := sh, E := e, W := w, D := d, C := c, H := h }
 
 def handle : DrvHandler := fun op args =>
   match op, args with
